@@ -214,6 +214,13 @@ theorem collector_pure_iff_deep_copy : CollectorPure BlugeGen.C09.copyIsDeep ↔
     · exact ⟨fun _ => rfl, fun _ => collector_pure_of_deep_copy⟩
   exact key _
 
+/-- `collector_pure` AT FULL STRENGTH for the tree under check (after the "fix:" commit 478038c of
+/repo `SortOrder.Copy` copies the `Sort` objects, the regenerated fact is `true`): building a collector —
+for any request, search-before included — leaves the caller's sort order unchanged. Reverting the repair
+regenerates `copyIsDeep := false` and this theorem no longer checks. -/
+theorem collector_pure : CollectorPure BlugeGen.C09.copyIsDeep :=
+  collector_pure_iff_deep_copy.mpr (by decide)
+
 /-- the model's `Collector()` is the one of /repo: `Reverse` is applied to the result of `Copy()` only,
 and `Reverse` negates exactly `desc` and `missingFirst` -/
 theorem gen_collector_shape :
